@@ -9,7 +9,8 @@ Definition all_reversible (T : rtables) (b : rbatch) : bool :=
   forallb (fun e => reversible (rt_std T) (e_code e)) (rb_entries b).
 
 Definition tables_ok (T : rtables) : bool :=
-  rev_table_ok (rt_arms T) (rt_std T) (rt_pre T) && fixups_ok (rt_fix T) && amount_ok (rt_amt T) (rt_std T).
+  rev_table_ok (rt_arms T) (rt_std T) (rt_pre T) && fixups_ok (rt_fix T) && amount_ok (rt_amt T) (rt_std T)
+  && negb (is_prenote_desc (rt_desc T)).
 
 Lemma reversible_entry_code std c : reversible std c = true -> entry_code std c = true.
 Proof. unfold reversible. intros H. now apply andb_prop in H as [H _]. Qed.
@@ -33,12 +34,16 @@ Section WithTables.
   Let pre := rt_pre T.
   Let amt := rt_amt T.
 
-  Lemma HT_tab : rev_table_ok arms std pre = true.
-  Proof. unfold tables_ok in HT. apply andb_prop in HT as [H _]. now apply andb_prop in H as [H _]. Qed.
-  Lemma HT_fix : fixups_ok (rt_fix T) = true.
-  Proof. unfold tables_ok in HT. apply andb_prop in HT as [H _]. now apply andb_prop in H as [_ H]. Qed.
-  Lemma HT_amt : amount_ok amt std = true.
-  Proof. unfold tables_ok in HT. now apply andb_prop in HT as [_ H]. Qed.
+  Lemma HT_all : rev_table_ok arms std pre = true /\ fixups_ok (rt_fix T) = true /\ amount_ok amt std = true
+                 /\ is_prenote_desc (rt_desc T) = false.
+  Proof.
+    unfold tables_ok in HT. apply andb_prop in HT as [H H4]. apply andb_prop in H as [H H3].
+    apply andb_prop in H as [H1 H2]. repeat split; try assumption. now destruct (is_prenote_desc (rt_desc T)).
+  Qed.
+  Lemma HT_tab : rev_table_ok arms std pre = true. Proof. apply HT_all. Qed.
+  Lemma HT_fix : fixups_ok (rt_fix T) = true. Proof. apply HT_all. Qed.
+  Lemma HT_amt : amount_ok amt std = true. Proof. apply HT_all. Qed.
+  Lemma HT_desc : is_prenote_desc (rt_desc T) = false. Proof. apply HT_all. Qed.
 
   Definition props c (H : reversible std c = true) := rev_table_sound arms std pre HT_tab c H.
 
@@ -131,9 +136,10 @@ Section WithTables.
   Proof. intros H. rewrite map_map. apply map_ext. exact H. Qed.
 
   Theorem reversal_batch_correct d b :
-    rbatch_valid T b = true -> all_reversible T b = true -> batch_reversed d b (reversal_batch T d b).
+    rbatch_valid T b = true -> all_reversible T b = true -> is_prenote_desc (rb_desc b) = false ->
+    batch_reversed d b (reversal_batch T d b).
   Proof.
-    intros Hv Hr. unfold all_reversible in Hr. fold std in Hr.
+    intros Hv Hr Hnp. unfold all_reversible in Hr. fold std in Hr.
     unfold rbatch_valid in Hv.
     apply andb_prop in Hv as [Hv Hamounts]. apply andb_prop in Hv as [Hv Hdeb].
     apply andb_prop in Hv as [Hv Hcred]. apply andb_prop in Hv as [Hv _].
@@ -162,7 +168,7 @@ Section WithTables.
       rewrite forallb_forall in Hr. specialize (Hr e He).
       destruct (props _ Hr) as [H1 H2 H3 H4 _ _ _]. repeat split; auto. now apply reversible_entry_code.
     - (* validity of the reversed batch *)
-      unfold rbatch_valid. cbn [rb_entries rb_debit rb_credit rb_scc_h rb_scc_c].
+      unfold rbatch_valid. cbn [rb_entries rb_debit rb_credit rb_scc_h rb_scc_c rb_desc].
       fold amt std pre.
       assert (Hclosed : forallb (fun e => reversible std (e_code e)) es' = true).
       { apply forallb_forall. intros e' Hin. apply in_map_iff in Hin as (e & <- & He).
@@ -188,6 +194,7 @@ Section WithTables.
         rewrite forallb_forall in Hamounts. specialize (Hamounts e He).
         rewrite forallb_forall in Hr. specialize (Hr e He).
         destruct (props _ Hr) as [_ _ _ _ _ _ Hp].
+        rewrite Hnp in Hamounts. rewrite HT_desc.
         unfold amount_rule in *. cbn [rev_entry e_code e_amount]. fold arms pre. rewrite Hp. exact Hamounts.
     - unfold all_reversible. cbn [rb_entries]. fold std.
       apply forallb_forall. intros e' Hin. apply in_map_iff in Hin as (e & <- & He).
@@ -226,7 +233,9 @@ Section WithTables.
     destruct E as [-> ->]. split; reflexivity.
   Qed.
 
-  Definition file_reversible (f : rfile) : bool := forallb (all_reversible T) (rf_batches f).
+  (* every batch holds reversible codes only and is not described PRENOTE *)
+  Definition file_reversible (f : rfile) : bool :=
+    forallb (fun b => all_reversible T b && negb (is_prenote_desc (rb_desc b))) (rf_batches f).
 
   Record file_reversed (d t : bytes) (f f' : rfile) : Prop := {
     fr_batches : Forall2 (batch_reversed d) (rf_batches f) (rf_batches f');
@@ -251,7 +260,8 @@ Section WithTables.
     - assert (HF : Forall2 (batch_reversed d) bs bs').
       { subst bs'. clear Hn Hne Hc Hd. induction bs as [|b r IH]; [constructor|].
         cbn [forallb] in Hbs, Hr. apply andb_prop in Hbs as [Hb Hbs]. apply andb_prop in Hr as [Hrb Hr].
-        cbn [map]. constructor; [now apply reversal_batch_correct|now apply IH]. }
+        apply andb_prop in Hrb as [Hrb Hnp].
+        cbn [map]. constructor; [apply reversal_batch_correct; [exact Hb|exact Hrb|now destruct (is_prenote_desc (rb_desc b))]|now apply IH]. }
       destruct (sum_swapped d bs) as [S1 S2].
       constructor; cbn [rf_batches rf_date rf_time rf_debit rf_credit]; try reflexivity.
       + exact HF.
